@@ -485,6 +485,33 @@ func (m *Machine) callBuiltin(th *Thread, b *ssa.Builtin, args []Value, site ssa
 				x.Entries = nil
 			}
 			return nil
+		case *SliceV:
+			if x.Arr != nil {
+				arr := x.backing()
+				for i := x.Off; i < x.Off+x.Len; i++ {
+					switch e := arr.E[i].(type) {
+					case *Term:
+						if e.S.K == KBool {
+							arr.E[i] = m.tt.False
+						} else if e.S.K == KBV {
+							arr.E[i] = m.tt.Const(int(e.S.W), 0)
+						} else {
+							arr.E[i] = m.tt.FConst(0)
+						}
+					case *StrV:
+						arr.E[i] = concStr("")
+					case *Ptr:
+						arr.E[i] = nilPtr
+					default:
+						at, ok := x.Arr.T.Underlying().(*types.Array)
+						if !ok || len(x.Base) != 0 {
+							panic(m.unsupported("clear of a slice of %T", arr.E[i]))
+						}
+						arr.E[i] = m.zero(at.Elem())
+					}
+				}
+			}
+			return nil
 		}
 	case "ssa:wrapnilchk":
 		p := args[0].(*Ptr)
